@@ -27,6 +27,13 @@ def build_layout(box, rnd, srcrel):
     src = os.path.join(proj, srcrel)
     names = ["a.rs", ".hidden.rs", "UPPER.RS", "c.rsx", "d.rs.bak", "noext", "e.Rs", "notes.txt", "two.dots.rs",
              "deep/x/y/z/b.rs", "deep/x/other.rsx", "dir.rs/inner.rs", "dir.rs/inner.txt", "sp ace/s p.rs", "uni-é/ü.rs"]
+    # extensions that are substrings / superstrings / permutations of the configured ones (passed in by the caller)
+    for e in getattr(build_layout, "exts", []):
+        near = {e[1:], e[:-1], e + e, e + "~", "a" + e, e[::-1], e.upper() if e.upper() != e else e.lower(), e + "."}
+        for j, n_ in enumerate(sorted(x for x in near if x != e)):
+            names.append("near/%s_%d.%s" % (e, j, n_))
+    names.append("near/trailing_dot.")
+    names.append("near/only.dots..")
     extra_depth = rnd.randrange(0, 3)
     for k in range(extra_depth):
         names.append("/".join("n%d" % j for j in range(k + 2)) + "/leaf%d.rs" % k)
@@ -58,6 +65,7 @@ def work(job):
     res = {"evaluations": 1, "nontrivial": [], "violations": [], "samples": [], "inconclusive": {}, "counters": {}}
     with core.Box(tag="c15") as box:
         srcrel = "code/src" if sform == "nested" else "src"
+        build_layout.exts = exts
         src, names = build_layout(box, rnd, srcrel)
         os.makedirs(os.path.join(box.proj, "a"), exist_ok=True)
         sd = {"plain": srcrel, "dot": "./" + srcrel, "dotdot": "a/../" + srcrel, "absolute": src, "nested": srcrel,
